@@ -1,4 +1,5 @@
 """C04 - knot insertion never changes the shape (DESIGN.md section 5, C04)."""
+import copy
 from fractions import Fraction as F
 
 from hypothesis import strategies as st
@@ -57,14 +58,27 @@ def _insert_cases(draw, tier):
         dirs = [draw(st.one_of(st.none(), ins_desc())) for _ in range(pdim)]
         if all(x is None for x in dirs):
             dirs[draw(st.integers(0, pdim - 1))] = draw(ins_desc())
-        ops.append({"dirs": dirs, "form": draw(st.sampled_from(["ops", "method"]))})
-    return {"defn": d, "ops": ops, "read_evalpts": draw(st.booleans())}
+        ops.append({"dirs": dirs, "form": draw(st.sampled_from(["ops", "method", "method-defaults"]))})
+    return {"defn": d, "ops": ops, "read_evalpts": draw(st.booleans()), "fork": draw(st.integers(0, 3)) == 0}
 
 
 def _do_insert(obj, params, nums, form):
     pdim = obj.pdimension
     if form == "ops":
         operations.insert_knot(obj, list(params), list(nums))
+    elif form == "method-defaults":
+        # unused directions are left out and a count of one is left to its documented default
+        kw = {}
+        for nm, u, r in zip("uvw", params, nums):
+            if u is not None:
+                if pdim > 1:
+                    kw[nm] = u
+                if r != 1:
+                    kw["num" if pdim == 1 else "num_" + nm] = r
+        if pdim == 1:
+            obj.insert_knot(params[0], **kw)
+        else:
+            obj.insert_knot(**kw)
     elif pdim == 1:
         obj.insert_knot(params[0], num=nums[0])
     elif pdim == 2:
@@ -84,6 +98,13 @@ def check_insert(case, ctx):
         _ = obj.evalpts
         if obj.rational:
             _ = obj.ctrlpts, obj.weights          # populate the unweighted views before the net grows
+    source = None
+    if case.get("fork"):
+        # the insertions are made on a deep copy; the object it was copied from keeps its net and its views
+        source, obj = obj, copy.deepcopy(obj)
+        src_def = build.snapshot(source)
+        src_views = ([list(q) for q in source.ctrlpts], list(source.weights) if source.rational else None)
+        ctx.label("insertions-on-a-deep-copy")
     inserted = [[] for _ in range(pdim)]
     done = 0
     onknot = multi = rge2 = False
@@ -125,6 +146,10 @@ def check_insert(case, ctx):
             total *= s_
         ctx.check(len(build.stored_points(obj)) == total, "net-count", "control net has %d points for sizes %r" % (len(build.stored_points(obj)), nszs))
         ctx.check(build.degrees_of(obj) == degs, "degree-changed", "degrees changed to %r" % build.degrees_of(obj))
+        if source is not None and done % 2:
+            now = ([list(q) for q in source.ctrlpts], list(source.weights) if source.rational else None)
+            ctx.check(now == src_views and build.snapshot(source) == src_def, "copy-source-changed",
+                      "after an insertion into a deep copy the source reports %d control points (%d before)" % (len(now[0]), len(src_views[0])))
         if obj.rational:
             # the control net grew: the unweighted points and the weights grow with it
             if done % 2:
@@ -137,6 +162,10 @@ def check_insert(case, ctx):
             hom = build.homogeneous(Pv, Wv)
             ctx.check(all(all(abs(a - b) <= 1e-9 * (1 + abs(b)) for a, b in zip(x, y)) for x, y in zip(hom, build.stored_points(obj))), "net-views",
                       "after the insertion ctrlpts * weights differs from the stored homogeneous net")
+        if source is not None and not done % 2:
+            now = ([list(q) for q in source.ctrlpts], list(source.weights) if source.rational else None)
+            ctx.check(now == src_views and build.snapshot(source) == src_def, "copy-source-changed",
+                      "after an insertion into a deep copy the source reports %d control points (%d before)" % (len(now[0]), len(src_views[0])))
         lat = shape.obj_lattice(obj, extras=inserted)
         shape.same_shape(ctx, R, obj, lat, "shape-changed",
                          "after %d insertion call(s), last %r x%r via %s" % (done, params, nums, op["form"]))
